@@ -79,6 +79,8 @@ pub fn execute(sc: &Scenario, prefix: Vec<u32>, zero_until: usize, tail_seed: u6
     crate::machine::reset_counters();
     crate::payload::reset_defaults();
     crate::v1exec::reset();
+    crate::subcall::reset();
+    crate::work::reset();
     crate::crash::begin(sc.name);
     EMERGENCY.with(|e| {
         let mut v = e.get();
@@ -140,11 +142,15 @@ pub struct Stats {
     pub foreign: BTreeMap<String, u64>,
     pub labels: BTreeMap<&'static str, u64>,
     pub results: BTreeMap<String, u64>,
+    /// evaluations of the individual oracle rules (C21-C23) and host-side checks
+    pub checks: BTreeMap<&'static str, u64>,
+    /// (status sequence the guest saw) -> count, async import calls (C21)
+    pub sub_paths: BTreeMap<String, u64>,
 }
 
 impl Stats {
     pub fn new() -> Stats {
-        Stats { execs: 0, vectors: BTreeSet::new(), traces: BTreeSet::new(), codeseqs: BTreeSet::new(), calls: BTreeMap::new(), events: 0, deliveries: 0, copies: 0, snapshots: 0, cancels_injected: 0, stuck_expected: 0, per_scenario: BTreeMap::new(), exhaustive_complete: BTreeMap::new(), foreign: BTreeMap::new(), labels: BTreeMap::new(), results: BTreeMap::new() }
+        Stats { execs: 0, vectors: BTreeSet::new(), traces: BTreeSet::new(), codeseqs: BTreeSet::new(), calls: BTreeMap::new(), events: 0, deliveries: 0, copies: 0, snapshots: 0, cancels_injected: 0, stuck_expected: 0, per_scenario: BTreeMap::new(), exhaustive_complete: BTreeMap::new(), foreign: BTreeMap::new(), labels: BTreeMap::new(), results: BTreeMap::new(), checks: BTreeMap::new(), sub_paths: BTreeMap::new() }
     }
 }
 
@@ -213,6 +219,32 @@ impl Runner {
         }
         for (k, v) in &out.host.calls {
             *st.calls.entry(k).or_insert(0) += v;
+        }
+        for (k, v) in &out.host.checks {
+            *st.checks.entry(k).or_insert(0) += v;
+        }
+        for (k, v) in crate::monitors2::take_counts() {
+            *st.checks.entry(k).or_insert(0) += v;
+        }
+        for r in &out.host.subcalls {
+            let mut k = String::new();
+            for (s, via) in &r.seen {
+                if !k.is_empty() {
+                    k.push('>');
+                }
+                k.push_str(match *s {
+                    0 => "starting",
+                    1 => "started",
+                    2 => "returned",
+                    3 => "started-cancelled",
+                    4 => "returned-cancelled",
+                    _ => "?",
+                });
+                k.push('(');
+                k.push_str(via);
+                k.push(')');
+            }
+            *st.sub_paths.entry(k).or_insert(0) += 1;
         }
         if cfg!(miri) {
             // interpretation is slow: keep the bookkeeping minimal
@@ -341,6 +373,12 @@ impl Runner {
         ex.insert("exhaustive_tree_fully_enumerated".into(), json!(st.exhaustive_complete));
         ex.insert("choice_points_by_label".into(), json!(st.labels));
         ex.insert("guest_visible_results".into(), json!(st.results));
+        if !st.checks.is_empty() {
+            ex.insert("oracle_checks".into(), json!(st.checks));
+        }
+        if !st.sub_paths.is_empty() {
+            ex.insert("import_call_status_sequences".into(), json!(st.sub_paths));
+        }
         if !st.foreign.is_empty() {
             ex.insert("findings_owned_by_other_properties".into(), json!(st.foreign));
         }
